@@ -71,9 +71,11 @@ CLAIMS = {
         text="Proved on the full model of parse_segments (group finder as a zipper, with its admission checks), for every structure, text and level: with group "
              "finding on, the flattened tree is a sublist in document order of the segments parsed from the input lines, each kept segment being the parse of its "
              "own line (nothing reordered, duplicated or invented); with group finding off every non-empty line becomes exactly one segment (nothing dropped). "
-             "'Never a shorter message' is FALSE with group finding on (finding D4): kernel-checked witness C03_witness_drop. Leaf preservation inside a segment "
-             "is decided by the correspondence + oracle (partial).",
-        note=NOTE_COMMON + "Leaf values are canonical; the within-segment leaf clause is not a theorem.",
+             "'Never a shorter message' is FALSE with group finding on (finding D4): kernel-checked witness C03_witness_drop. Inside a segment, on the cascade model (Hl7.Casc, compared with the real element tree under C01): "
+             "C03_parse_keeps_every_piece - for every list of levels and EVERY text (canonical or not, trailing empty pieces, more pieces than positions) the leaves of the "
+             "parsed tree, in order, are exactly the pieces the text consists of. That encoding gives them back (non-canonical text) is decided by the correspondence + oracle (partial); every "
+             "parse result is also recomputed in another order in one process (history independence).",
+        note=NOTE_COMMON + "Leaf values are canonical; the within-segment leaf clause is a theorem for the parse half on the cascade model only.",
         technique="Lean 4 proof (induction over the line fold with a zipper invariant) + kernel-checked counterexample + differential correspondence",
         design="DESIGN.md §5 C03"),
     'C08': dict(
